@@ -262,7 +262,7 @@ def run(ctx: Ctx) -> Result:
     res = Result(rule=RULE)
     res.relations = ["http_obs = response class of the first data_received call"]
     cases, meta = [], []
-    eps = ["/healthz", "/h"] + (["/a/b-c_d", "/ü", "/x y"] if ctx.thorough else ["/a/b-c_d"])
+    eps = ["/healthz", "/h"] + (["/a/b-c_d", "/ü", "/x%20y"] if ctx.thorough else ["/a/b-c_d"])
 
     async def main():
         asyncio.get_running_loop().set_exception_handler(lambda l, c: None)
